@@ -60,6 +60,13 @@ type SeedRecSlice struct {
 	Kids []SeedRecSlice
 }
 
+// maps keyed by a defined string type
+type SeedKey string
+type SeedKeyed struct {
+	M map[SeedKey]seedEmbedded `struct:"m"`
+	P map[SeedKey]*int         `struct:"p,omitempty"`
+}
+
 // self-referential types that are not structs
 type SeedTreeMap map[string]SeedTreeMap
 type SeedTreeSlice []SeedTreeSlice
@@ -331,6 +338,8 @@ func seeds() []seed {
 		{"SeedZeroV", []interface{}{SeedZeroV{}, SeedZeroV{1}}, nil, nil},
 		{"SeedRec", []interface{}{SeedRec{}, *rec(3), rec(2)}, nil, nil},
 		{"SeedRecSlice", []interface{}{SeedRecSlice{}, SeedRecSlice{Kids: []SeedRecSlice{{}, {Kids: []SeedRecSlice{{}}}}}}, nil, nil},
+		{"SeedNamedKeys", []interface{}{map[SeedKey]int{"a": 1}, map[SeedKey]seedEmbedded{"a": {1}}, map[SeedKey]*int{"n": nil}, map[SeedKey]*seedEmbedded{"p": {2}}, map[SeedKey][]string{"l": {"x"}},
+			map[SeedKey]map[SeedKey]bool{"o": {"i": true}}, map[SeedKey]interface{}{"i": 1}, SeedKeyed{M: map[SeedKey]seedEmbedded{"k": {3}}, P: map[SeedKey]*int{"z": nil}}, SeedKeyed{}, []map[SeedKey]seedEmbedded{{"e": {4}}}}, nil, nil},
 		{"SeedRecursiveContainers", []interface{}{SeedTreeMap{"a": {"b": {}}, "c": nil}, SeedTreeMap(nil), SeedTreeSlice{{}, {{}, nil}}, SeedTreeSlice(nil), SeedPtrList{&SeedPtrList{nil}, nil},
 			SeedMapOfSlices{"k": {{"i": nil}, nil}}, SeedHasTrees{T: SeedTreeMap{"x": nil}, S: SeedTreeSlice{{}}, N: 1}, SeedHasTrees{}, &SeedTreeMap{"p": {}}, []SeedTreeMap{{"e": nil}},
 			map[string]SeedTreeSlice{"m": {{}}}, struct{ I interface{} }{SeedTreeMap{"in": {}}}}, nil, nil},
